@@ -306,6 +306,17 @@ def r_dual(sh, rep):
                         continue
                     nsib += 1
                     rep.check(th == ["unknown_data_to_type"] and el == ["softcast_data_to_type_otherwise"], "R14-DUAL", "%s#error-continuation-branch#%d" % (q, nsib), sh.loc(rel, n), "where no traced continuation exists the value must be decoded with unknown_data_to_type (fails by itself) and otherwise with softcast_data_to_type_otherwise; found %s / %s — the untraced build would accept data the traced build rejects" % (th, el), sample={"untraced": th, "traced": el})
+    # (d) the high-level branch point in `assignment`: with a continuation -> soft cast, without -> full cast; nothing else
+    for q, f in all_fns(sh.file(GEN)):
+        if not q.endswith("CodeGenerator::assignment") or "body" not in f:
+            continue
+        for n in walk(f["body"]):
+            if n["k"] == "If" and n["cond"].get("k") == "LetCond" and "otherwise" in sh.nsrc(GEN, n["cond"]["e"]) and last(pat_head(n["cond"]["pat"]) or "") == "Some" and n.get("else") is not None:
+                def ctors(b):
+                    return sorted({last(call_name(c) or "") for c in walk(b) if c.get("k") == "Call" and (call_name(c) or "").startswith("AirTree::") and last(call_name(c) or "") in ("soft_cast_assignment", "let_assignment", "cast_from_data", "cast_to_data")})
+                th, el = ctors(n["then"]), ctors(n["else"])
+                if "soft_cast_assignment" in th or "cast_from_data" in el:
+                    rep.check(th == ["soft_cast_assignment"] and "cast_from_data" in el, "R14-DUAL", "%s#continuation-branch#soft-vs-full-cast" % q, sh.loc(GEN, n), "with a traced continuation an expected value must be bound through soft_cast_assignment and without one through cast_from_data; found %s / %s — a plain `let` in the traced branch binds without checking, so the traced build accepts data the untraced build rejects" % (th, el), sample={"traced": th, "untraced": el})
     if nsib < 4:
         rep.bad("R14-DUAL", "error-continuation-branches", GEN, "only %d decoder branch points on `otherwise == Term::Error.delay()` found, 4 confirmed by hand (anchor)" % nsib)
     if not sites:
